@@ -32,7 +32,7 @@ import (
 
 func init() {
 	register(&Prop{
-		ID: "C19", Gen: genC19, Run: runC19, Quick: 1500, Thorough: 60000,
+		ID: "C19", Gen: genC19, Run: runC19, Quick: 1500, Thorough: 300000,
 		Real: []string{"pkg/kafka/producer: PublishIPFIXMessages, SendFlowMessage (length prefix + proto.Marshal), both shipped convertors (FlowType1, FlowType2)", "pkg/kafka/consumer DecodeAndPrintMsg", "generated protobuf types"},
 		Stub: []string{"Kafka broker and sarama's asynchronous producer (simbroker behind the library's SetSaramaProducer seam: stalls its input, encodes values late, delays acks)", "wall clock (synctest bubble)"},
 		Rule: "streams of template and data messages with 0..5 records of seeded values (IPv4 and IPv6, short and long strings) through the real publish path into a broker stub that stalls and encodes late; published payloads compared with the records (count, order, topic, 4-byte length prefix, protobuf fields, consumer-side decode); non-trivial = at least 2 data records published; distinct = distinct event-log hash",
